@@ -78,6 +78,8 @@ class RNG:
         vec = np.arange(a) if isinstance(a, (int, np.integer)) else np.asarray(a)
         n = len(vec)
         allowed = [i for i in range(n) if p is None or p[i] > 0]
+        if n == 0 and (size is None or int(np.prod(size)) > 0):
+            raise ValueError("'a' cannot be empty unless no samples are taken")
         if size is None:
             return vec[allowed[self._draw(len(allowed), 'choice')]]
         k = int(size if not isinstance(size, tuple) else np.prod(size))
